@@ -427,6 +427,86 @@ func c05Volumes(c *rt.Ctx, h int) {
 	c.Rep.Sample(map[string]any{"fs": "MemFS/Windows volumes", "last_calls": hist[max(0, len(hist)-6):]}, 2)
 }
 
+// c05Repeats: trees whose paths repeat themselves (/a/x/a/y, /w/a/k/w/a/y: the path of a directory occurs again inside
+// the path of one of its descendants), then renames and removals of those directories. A file system that keeps an
+// index of absolute paths has to re-key exactly the leading occurrence. Monitors (1) and (2) after every call.
+func c05Repeats(c *rt.Ctx, fsType string, h int) {
+	r := c.Rand(fmt.Sprintf("c05-rep-%s-%d", fsType, h))
+	v, chk := c05New(fsType, avfs.OsLinux)
+	names := []string{"a", "w", "x"}
+	var dirs []string
+	var hist []string
+	replay := func() any { return map[string]any{"fs": fsType, "history": hist} }
+	// a few chains of 3-6 components over three names, each ending in a file
+	for k := 0; k < 3; k++ {
+		p := ""
+		for d := 0; d < 3+r.IntN(4); d++ {
+			p += "/" + names[r.IntN(len(names))]
+			dirs = append(dirs, p)
+		}
+		_ = v.MkdirAll(p, 0o755)
+		_ = v.WriteFile(p+"/y", []byte(p), 0o644)
+		hist = append(hist, "MkdirAll+WriteFile "+p+"/y")
+	}
+	for i := 0; i < 8; i++ {
+		fsx.BeginCall()
+		src := dirs[r.IntN(len(dirs))]
+		var what string
+		var err error
+		switch r.IntN(5) {
+		case 0, 1, 2:
+			dst := v.Dir(src) + "/" + []string{"b", "a", "w", "n" + fmt.Sprint(i)}[r.IntN(4)]
+			if r.IntN(4) == 0 {
+				dst = "/" + []string{"b", "m"}[r.IntN(2)]
+			}
+			err = v.Rename(src, dst)
+			what = fmt.Sprintf("Rename(%q,%q)", src, dst)
+			if err == nil {
+				for j, d := range dirs {
+					if d == src || strings.HasPrefix(d, src+"/") {
+						dirs[j] = dst + d[len(src):]
+					}
+				}
+			}
+		case 3:
+			err = v.RemoveAll(src)
+			what = fmt.Sprintf("RemoveAll(%q)", src)
+		default:
+			err = v.WriteFile(src+"/z", []byte("z"), 0o644)
+			what = fmt.Sprintf("WriteFile(%q)", src+"/z")
+		}
+		hist = append(hist, fmt.Sprintf("%s -> %v", what, err))
+		kind := strings.SplitN(what, "(", 2)[0]
+		c.Rep.Case(fmt.Sprintf("%s|repeated-segments|%s|%s", fsType, kind, fsx.ErrClass(err)), true)
+		post := fsx.Snap(v, "/", fsx.SnapOpts{})
+		if bad := post.InvariantProblems(); len(bad) > 0 {
+			c.Disagree(fmt.Sprintf("%s/Linux|%s|%s|public-invariant:%s", fsType, kind, fsx.ErrClass(err), firstWords(bad[0])), fmt.Sprintf("%s: after %v the tree is not well formed: %v", fsType, hist, bad[:min3(4, len(bad))]), replay())
+			return
+		}
+		if bad := chk.VerifCheck(); len(bad) > 0 {
+			c.Disagree(fmt.Sprintf("%s/Linux|%s|%s|internal-invariant:%s", fsType, kind, fsx.ErrClass(err), firstWords(bad[0])), fmt.Sprintf("%s: after %v the internal structure is inconsistent: %v", fsType, hist, bad[:min3(4, len(bad))]), replay())
+			return
+		}
+		// every directory of the bookkeeping that should exist is reachable, with its file
+		for _, d := range dirs {
+			if _, e1 := v.Lstat(d); e1 == nil {
+				if es, e2 := v.ReadDir(d); e2 != nil {
+					c.Disagree(fmt.Sprintf("%s/Linux|%s|listed-but-unreadable", fsType, kind), fmt.Sprintf("%s: after %v Lstat(%q) succeeds but ReadDir fails: %v", fsType, hist, d, e2), replay())
+					return
+				} else {
+					for _, e := range es {
+						if _, e3 := v.Lstat(d + "/" + e.Name()); e3 != nil {
+							c.Disagree(fmt.Sprintf("%s/Linux|%s|listed-but-missing", fsType, kind), fmt.Sprintf("%s: after %v ReadDir(%q) lists %q but Lstat of it fails: %v", fsType, hist, d, e.Name(), e3), replay())
+							return
+						}
+					}
+				}
+			}
+		}
+	}
+	c.Rep.Count("complete_repeated_segment_histories", 1)
+}
+
 func firstWords(s string) string {
 	f := strings.Fields(s)
 	var out []string
@@ -579,6 +659,11 @@ func init() {
 			for h := 0; h < c.Pick(600, 12000); h++ {
 				if h%c.NShards == c.Shard {
 					c05Volumes(c, h)
+				}
+			}
+			for h := 0; h < c.Pick(1200, 24000); h++ {
+				if h%c.NShards == c.Shard {
+					c05Repeats(c, []string{"MemFS", "OrefaFS"}[h%2], h)
 				}
 			}
 		},
